@@ -1330,10 +1330,10 @@ class CompositeEnvelope:
             assert (
                 len(product_states) > 0
             ), "Only one product state should exist at this point"
-        ps = product_states[0]
-
         self.reorder(*states)
 
+        # Reordering may have combined the states into a new product state
+        ps = [p for p in self.states if all(so in p.state_objs for so in states)][0]
         return ps.trace_out(*states)
 
     def resize_fock(self, new_dimensions: int, fock: "Fock") -> bool:
